@@ -159,6 +159,9 @@ def handle_firmware_request(msg):
 def handle_id_request(msg):
     """Process an internal id request message."""
     node_id = msg.gateway.add_sensor()
+    if node_id is not None and msg.gateway.tasks.persistence:
+        # The reserved id must survive a restart, or it will be handed out again.
+        msg.gateway.tasks.persistence.need_save = True
     return (
         msg.copy(
             ack=0, sub_type=msg.gateway.const.Internal["I_ID_RESPONSE"], payload=node_id
